@@ -325,6 +325,7 @@ type c08Plan struct {
 	single   bool       // exactly one video section
 	connect  bool       // pion mode: wait for the connection after round 0
 	localOps bool       // random local ops between rounds
+	midOp    bool       // deterministic: AddTrack(video) between SetRemoteDescription(offer) and CreateAnswer, every round
 }
 
 // c08Setup op codes for the deterministic grid.
@@ -502,13 +503,21 @@ func c08RunHistory(run *kit.Run, idx int, r *kit.Rand, p c08Plan) { //nolint:goc
 		}
 		// local changes between applying the offer and creating the answer
 		changedBy := map[string]string{} // mid -> the local op after the offer that last changed that transceiver's direction
-		if p.localOps && r.Chance(0.3) {
-			for k := r.Range(1, 2); k > 0; k-- {
+		if p.midOp || (p.localOps && r.Chance(0.3)) {
+			nOps := 1
+			if !p.midOp {
+				nOps = r.Range(1, 2)
+			}
+			for k := nOps; k > 0; k-- {
 				pre := map[string]string{}
 				for mid, t := range assoc {
 					pre[mid] = t.Direction().String()
 				}
-				if d := h.localOp(-1, ""); d != "" {
+				opCode, opKind := -1, ""
+				if p.midOp {
+					opCode, opKind = 0, "video"
+				}
+				if d := h.localOp(opCode, opKind); d != "" {
 					h.logf("after-offer:%s", d)
 					for mid, t := range assoc {
 						if t.Direction().String() != pre[mid] {
@@ -680,6 +689,10 @@ var c08Transitions sync.Map //nolint:gochecknoglobals
 
 const c08Grid = 128 // 2 modes × 4 local set-ups × 4 first offered directions × 4 second offered directions
 
+// c08Grid2: 2 modes × 4 local set-ups × 4 first × 4 second offered directions again, with AddTrack(video) between
+// SetRemoteDescription(offer) and CreateAnswer in every round (a local change after the offer was applied).
+const c08Grid2 = 128
+
 func TestVerifC08(t *testing.T) {
 	run := kit.Start(t, "C08", "histories of an answering PeerConnection: cases 0..127 are the complete grid {pion offerer, generated offerer} × "+
 		"{no local transceiver, AddTrack, recvonly transceiver, sendonly transceiver from track} × first offered direction × re-offered direction "+
@@ -694,7 +707,7 @@ func TestVerifC08(t *testing.T) {
 
 	rounds := kit.N(4, 8)
 	nRandom := kit.N(500, 10000)
-	total := c08Grid + nRandom
+	total := c08Grid + c08Grid2 + nRandom
 	run.Set("rounds_per_random_history", rounds)
 	run.Set("grid_cases", c08Grid)
 	run.Set("random_histories", nRandom)
@@ -712,6 +725,22 @@ func TestVerifC08(t *testing.T) {
 			run.Seen("grid", fmt.Sprintf("%s/%s", mode, c08SetupNames[setup]))
 			c08RunHistory(run, i, r, c08Plan{
 				mode: mode, rounds: 2, single: true, setup: []int{setup}, connect: true,
+				forced: [][]string{{c08Dirs[d1]}, {c08Dirs[d2]}},
+			})
+
+			return
+		}
+		if i < c08Grid+c08Grid2 {
+			mode := "pion"
+			k := i - c08Grid
+			if k >= 64 {
+				mode = "gen"
+				k -= 64
+			}
+			setup, d1, d2 := k/16, (k/4)%4, k%4
+			run.Seen("grid", fmt.Sprintf("%s/%s+AddTrack-after-offer", mode, c08SetupNames[setup]))
+			c08RunHistory(run, i, r, c08Plan{
+				mode: mode, rounds: 2, single: true, setup: []int{setup}, connect: true, midOp: true,
 				forced: [][]string{{c08Dirs[d1]}, {c08Dirs[d2]}},
 			})
 
